@@ -381,6 +381,10 @@ func buildC20(tier string) sim.Scenario {
 					w.Fail("C20/camera-connection-leak", "the connection to the camera is still open 60 s after the failed pull (%s@%s auth=%s)", plan.kind, stepName(plan.step), plan.auth)
 					return
 				}
+				if !c.peer.IsClosed() {
+					w.Fail("C20/camera-connection-leak", "the server never closed its own end of the connection to the camera (60 s after %s@%s auth=%s ended the pull): the socket is leaked", plan.kind, stepName(plan.step), plan.auth)
+					return
+				}
 			}
 			w.Probe("c20.failure-clean")
 			// a later request pulls afresh from a camera that behaves
